@@ -253,10 +253,12 @@ class TimeVars(VarsBasic):
         :return: none
         """
         if isinstance(key, int):
-            if key > self.len:
-                raise ValueError(f'Exceed the maximum index, which is {self.len}')
-            else:
-                self.array[key:key + 1, :] = value.array[:].T
+            if key >= self.len or key < -self.len:
+                raise ValueError(f'Exceed the maximum index, which is {self.len - 1}')
+            row = Array(value.array, dim=1)
+            if row.shape[0] != self.array.shape[1]:
+                raise ValueError(f'Incompatible input array shape!')
+            self.array[key, :] = row
         else:
             raise NotImplementedError(f'Unsupported indices')
 
